@@ -96,6 +96,16 @@ def r08a(ctx, rep):
             if g is None or not n.startswith(SR):
                 continue
             refilled |= set(_receiver_fields(g, A.Defs(g)).keys())
+    # a slab method called directly on a field of the live router (`self.router.relations.replace_with(..)`) refills that field
+    for c in A.calls(rest):
+        if c.bb in R and c.args and c.args[0][0] != 'k' and not READONLY.search(c.resolved) and not c.resolved.endswith('::clear'):
+            fs = A.place_fields(c.args[0][1])
+            if not fs:
+                fs, _ = A.origin_fields(rest, c.args[0][1][0], rd)
+            if any(x.endswith('TensorStore.router') for x in fs):
+                for x in fs:
+                    if x.startswith(SRF):
+                        refilled.add(x[len(SRF):])
     # whole-field assignment would also refill
     for w in A.field_writes(rest):
         if w[2].startswith(SRF):
@@ -151,6 +161,27 @@ def r08a(ctx, rep):
             rep.holds('R08a', rest, fld, 'cleared, not refilled, unused outside the router (listed as candidate)')
 
 
+def r08c(ctx, rep):
+    rep.rule('R08c', 'a rollback always wipes what came after the checkpoint: every success return of TensorStore::restore_from_bytes is '
+                     'reachable only through the clear of the live router — no property of the decoded image (an empty key scan, a '
+                     'count) selects a path that reports success and leaves the current contents in place')
+    ts = ctx.crate('tensor_store')
+    f = rep.require_fn('R08c', ts, 'tensor_store::TensorStore::restore_from_bytes')
+    if f is None:
+        return
+    cl = A.calls_to(f, SR + 'clear') + A.calls_to(f, 'tensor_store::TensorStore::clear')
+    if not cl:
+        rep.violation('R08c', f, 'no-clear', f.loc(), 'restore_from_bytes no longer clears the live router: data written after the checkpoint survives the rollback')
+        return
+    rets = lib.success_return_reachable(f, [0], cut_blocks={c.bb for c in cl})
+    if rets:
+        rep.violation('R08c', f, 'success-without-clear', f.loc(lib.first_line(f, rets[0])),
+                      'restore_from_bytes can return Ok without having cleared the live store: rolling back to a checkpoint that takes this '
+                      'path (e.g. one taken on an empty store) reports success and keeps everything written since')
+    else:
+        rep.holds('R08c', f, 'clear must-pass', 'every success return passes the clear')
+
+
 def r08b(ctx, rep):
     rep.rule('R08b', 'rollback loads its target before anything can delete it: in CheckpointManager::rollback no call that reaches '
                      'checkpoint deletion (RetentionManager::enforce, CheckpointStorage::delete — e.g. creating a safety checkpoint, which '
@@ -204,3 +235,4 @@ def r08b(ctx, rep):
 def run(ctx, rep):
     r08a(ctx, rep)
     r08b(ctx, rep)
+    r08c(ctx, rep)
